@@ -39,3 +39,31 @@ Lemma col_in_line_refuted : ~ col_in_line_full_statement.
 Proof.
   intros H. specialize (H [2; 2; 1] 3 eq_refl). cbn in H. assert (3 <= 3) by lia. specialize (H H0). discriminate.
 Qed.
+
+(* ------------------------------------------------------------------ *)
+(* the repaired conversion *)
+Lemma chars_before_le_length : forall ws b, chars_before ws b <= length ws.
+Proof.
+  induction ws as [|w t IH]; intros b; cbn; [lia|]. destruct (w <=? b); [specialize (IH (b - w)); lia|lia].
+Qed.
+
+Lemma chars_before_byte_offset : forall ws k, wellformed_widths ws = true -> k <= length ws ->
+  chars_before ws (byte_offset ws k) = k.
+Proof.
+  induction ws as [|w t IH]; intros k Hw Hk; destruct k as [|k]; cbn in *; try lia.
+  - destruct w as [|w']; [apply andb_true_iff in Hw; destruct Hw as [Hw _]; discriminate Hw|]. reflexivity.
+  - apply andb_true_iff in Hw. destruct Hw as [Hw Ht].
+    assert (E : (w <=? w + byte_offset t k) = true) by (apply Nat.leb_le; lia). rewrite E.
+    replace (w + byte_offset t k - w) with (byte_offset t k) by lia. rewrite (IH k Ht) by lia. reflexivity.
+Qed.
+
+(* with the conversion the reported column is the character position -- inside the line for
+   EVERY line, and even for a byte offset that does not fall on a character boundary *)
+Theorem converted_col_in_line : forall ws k, wellformed_widths ws = true -> k <= length ws ->
+  reported_col_gen true ws k = k /\ reported_col_gen true ws k <= length ws.
+Proof.
+  intros ws k Hw Hk. unfold reported_col_gen. rewrite chars_before_byte_offset by assumption. split; [reflexivity|exact Hk].
+Qed.
+
+Theorem converted_col_never_outside : forall ws b, chars_before ws b <= length ws.
+Proof. exact chars_before_le_length. Qed.
